@@ -255,7 +255,11 @@ fn generate(rng: &mut Rng, n: usize, tier: &str, out: &mut dyn Write) {
     ] {
         table.push(Value::Float(f64::from_bits(f)));
     }
-    for s in ["", "a", "2019-12-31", "2020-W01-1", "2019-12-31x", "12", "9"] {
+    for s in [
+        "", "a", "2019-12-31", "2020-W01-1", "2019-12-31x", "12", "9", "-0044-03-15", "-0043-03-15", "-0001-06-01",
+        "-0002-01-01", "+12044-03-15", "9999-12-31", "-0044-03-15T10:00", "2019-12-31T09:00", "2019-12-31T23:00+01:00",
+        "2019-12-31T22:30Z", "12:00+02:00", "11:00+00:00", "09:00", "10:00:00",
+    ] {
         table.push(sv(s));
     }
     for a in &table {
@@ -263,6 +267,34 @@ fn generate(rng: &mut Rng, n: usize, tier: &str, out: &mut dyn Write) {
             let toks = format!("ocmp {} {}", vtok::show(a), vtok::show(b));
             let orc = vtok::oracle(&[a, b]).join(" ");
             writeln!(out, "{}", if orc.is_empty() { toks } else { format!("{} {}", toks, orc) }).unwrap();
+        }
+    }
+    // --- temporal strings of ONE kind per pool, text order != chronological order: every key position,
+    //     ASC/DESC, SKIP/LIMIT windows (the Spec orders same-kind temporal strings by their keys)
+    writeln!(out, "#case temporal").unwrap();
+    let pools: [&[&str]; 4] = [
+        &["-0044-03-15", "-0043-03-15", "-0001-06-01", "-0002-01-01", "-0001-01-01", "+12044-03-15", "9999-12-31", "2019-12-31", "0001-01-01", "2020-W01-1"],
+        &["-0044-03-15T10:00", "+12044-03-15T00:00:00", "0001-01-01T00:00", "2019-12-31T12:00", "2019-12-31T12:00:00", "-0044-03-15T09:59"],
+        &["2019-12-31T23:00+01:00", "2019-12-31T22:30Z", "2020-01-01T00:30+02:00", "-0044-03-15T10:00+01:00", "2019-12-31T12:00Z", "2019-12-31T13:00+01:00"],
+        &["12:00+02:00", "11:00+00:00", "12:00Z", "13:00+01:00", "09:30-03:00"],
+    ];
+    for pool in pools {
+        for dirs in ["a", "d", "aa", "ad", "da", "aaa"] {
+            let nk = dirs.len();
+            for _ in 0..(if tier == "thorough" { 12 } else { 4 }) {
+                let tpos = rng.below(nk as u64) as usize;
+                let nr = 2 + rng.below(8) as usize;
+                let rows: Vec<Vec<Value>> = (0..nr)
+                    .map(|_| {
+                        (0..nk)
+                            .map(|k| if k == tpos { sv(*rng.pick(pool)) } else { Value::Int(rng.range(0, 1)) })
+                            .collect()
+                    })
+                    .collect();
+                let skip = if rng.chance(1, 2) { Some(rng.below(3)) } else { None };
+                let limit = if rng.chance(2, 3) { Some(1 + rng.below(4)) } else { None };
+                emit(out, dirs, skip, limit, &rows);
+            }
         }
     }
     // --- SKIP/LIMIT over ORDER BY on inputs of 0..300 rows: sizes around powers of two and 64/128, 1-3 keys,
